@@ -10,7 +10,7 @@ from .c03 import _blocks
 
 ID = "C07"
 TECHNIQUE = "guarded early return (K2), return-shape classification and paired-accumulation blocks (K8 over shapes) in the autopack planner (ast)"
-FLOOR = 10
+FLOOR = 13
 PR = "breezy/bzr/pack_repo.py"
 COLL = "RepositoryPackCollection"
 EXPLANATION = """
